@@ -64,8 +64,25 @@ type RunCtx struct {
 	// StateSig is a hash of the final abstract state (for distinct counting).
 	StateSig string
 
+	// Soft collects violations that do not stop the run (the oracle keeps
+	// checking afterwards); they are reported if they are not known findings.
+	Soft []*Violation
+
 	worlds  []*world.World
 	cleanup []func()
+}
+
+// SoftFail records a violation without stopping the run (one per finding key).
+func (rc *RunCtx) SoftFail(v *Violation) {
+	if v == nil {
+		return
+	}
+	for _, x := range rc.Soft {
+		if sameViolation(x, v) {
+			return
+		}
+	}
+	rc.Soft = append(rc.Soft, v)
 }
 
 func (rc *RunCtx) Gen() *sim.Tape { return rc.Tapes.Gen }
@@ -85,7 +102,7 @@ func (rc *RunCtx) Fail(oracle, key, format string, a ...any) *Violation {
 
 // World builds a fresh world that is stopped and removed when the run ends.
 func (rc *RunCtx) World(spec world.Spec) (*world.World, error) {
-	w, err := world.Fresh(spec, rc.Faults)
+	w, err := world.Fresh(spec, rc.Faults, fmt.Sprintf("w%d", len(rc.worlds)))
 	if err != nil {
 		return nil, err
 	}
@@ -168,6 +185,7 @@ type RunResult struct {
 	Tier       string            `json:"tier"`
 	Tapes      sim.TapeData      `json:"tapes"`
 	Violation  *Violation        `json:"violation,omitempty"`
+	Soft       []*Violation      `json:"soft,omitempty"`
 	HarnessErr string            `json:"harness_error,omitempty"`
 	LogHash    string            `json:"log_hash"`
 	Steps      int               `json:"steps"`
@@ -189,7 +207,7 @@ func ExecRun(t *testing.T, sc *Scenario, tapes *sim.Tapes, tier string, keepLog 
 	res.Tier = tier
 	defer func() {
 		if r := recover(); r != nil {
-			res.HarnessErr = fmt.Sprintf("panic outside bubble body: %v\n%s", r, debug.Stack())
+			res.HarnessErr = fmt.Sprintf("%s | panic outside bubble body: %v\n%s\nBUBBLE GOROUTINES:\n%s", res.HarnessErr, r, debug.Stack(), bubbleGoroutines())
 		}
 		res.Tapes = tapes.Data()
 	}()
@@ -209,7 +227,15 @@ func ExecRun(t *testing.T, sc *Scenario, tapes *sim.Tapes, tier string, keepLog 
 				res.HarnessErr = fmt.Sprintf("panic on scheduler goroutine: %v\n%s", r, debug.Stack())
 			}
 			s.Close()
-			synctest.Wait()
+			// every goroutine of the bubble must end before the root returns;
+			// tasks still sleeping on the fake clock are carried forward
+			for i := 0; i < 200; i++ {
+				synctest.Wait()
+				if s.AllTasksDone() {
+					break
+				}
+				time.Sleep(24 * time.Hour)
+			}
 			for i := len(rc.cleanup) - 1; i >= 0; i-- {
 				rc.cleanup[i]()
 			}
@@ -236,6 +262,7 @@ func ExecRun(t *testing.T, sc *Scenario, tapes *sim.Tapes, tier string, keepLog 
 				res.States = append(res.States, h)
 			}
 			res.Sample = rc.Sample
+			res.Soft = rc.Soft
 			res.NonTrivial = rc.NonTrivial
 			res.Fired = f.FiredCounts()
 			for k, v := range res.Fired {
@@ -294,4 +321,17 @@ func firstLine(s string) string {
 		return s[:i]
 	}
 	return s
+}
+
+// bubbleGoroutines dumps the stacks of goroutines that belong to a synctest bubble.
+func bubbleGoroutines() string {
+	buf := make([]byte, 8<<20)
+	n := runtimeStack(buf)
+	var out []string
+	for _, g := range strings.Split(string(buf[:n]), "\n\n") {
+		if strings.Contains(firstLine(g), "synctest bubble") {
+			out = append(out, g)
+		}
+	}
+	return strings.Join(out, "\n\n")
 }
